@@ -3,6 +3,7 @@ excluding types, modules, functions, loggers and harness objects."""
 import collections
 import gc
 import logging
+import threading
 import types
 
 SKIP_TYPES = (type, types.ModuleType, types.FunctionType,
@@ -21,6 +22,14 @@ def measure(root, extra_skip=()):
     while stack:
         o = stack.pop()
         by_type[type(o).__name__] += 1
+        if isinstance(o, threading.Condition):
+            # the lock a thread parks on while it waits on the condition
+            # (the listener thread on its inbox) is run-time state of that
+            # thread, present or not depending on where the thread happens
+            # to be: not counted
+            w = getattr(o, '_waiters', None)
+            if w is not None:
+                seen.add(id(w))
         try:
             refs = gc.get_referents(o)
         except Exception:
